@@ -35,6 +35,25 @@ DOCUMENTED_CREATORS = {
 }
 
 
+def _has(obj, name):
+    try:
+        return bool(getattr(obj, name))
+    except Exception:  # noqa
+        return False
+
+
+# a documented creator is an ordinary read when what it would create is already there
+CREATOR_IS_PLAIN_READ = {
+    "Slide.notes_slide": lambda o: _has(o, "has_notes_slide"),
+    "SlidePart.notes_slide": lambda o: _has(o, "has_notes_slide"),
+    "Chart.chart_title": lambda o: _has(o, "has_title"),
+    "_BaseAxis.axis_title": lambda o: _has(o, "has_title"),
+    "ChartTitle.text_frame": lambda o: _has(o, "has_text_frame"),
+    "AxisTitle.text_frame": lambda o: _has(o, "has_text_frame"),
+    "DataLabel.text_frame": lambda o: _has(o, "has_text_frame"),
+}
+
+
 def _is_enum_or_plain(v):
     return v is None or isinstance(v, (str, bytes, int, float, bool, enum.Enum, tuple)) and not _is_pptx(v)
 
@@ -116,7 +135,8 @@ def traverse(root, access, rng, max_objects=4000, max_depth=9, max_items=6, skip
         rng.shuffle(names)
         vals = []
         for name in names:
-            if owner_name(cls, name) in skip:
+            on = owner_name(cls, name)
+            if on in skip and not (on in CREATOR_IS_PLAIN_READ and CREATOR_IS_PLAIN_READ[on](obj)):
                 continue
             try:
                 v = access(obj, cls, name, ctx_el)
